@@ -127,41 +127,66 @@ THEOREMS = [
      "exists content r, fst (stream_body_future false content r) <> "
      "Some (N.of_nat (length (concat (snd (stream_body_future false content r)))))"),
 ]
-RULE = ("(a) histories of 1-12 requests on ONE loopback connection handled by the public kvarn::handle_connection (thorough: also by a "
-        "RunConfig::execute server on a loopback port), each request sent after the previous response was read: GET/HEAD/POST/OPTIONS/PUT x "
-        "existing files (20 B, 3 kB, empty, index.html, in a directory) / missing / '/' / unsafe path / 12 handler-backed paths (static, "
-        "compressible, 204, 500, counter, echo, body readers read_to_bytes(1000) and (5), handlers that set connection: close / upgrade or a "
-        "false content-length) x Accept-Encoding (gzip, br, zstd, identity, *, q-values) x Range (satisfiable, single byte, open, beyond the "
-        "end, reversed, other unit) x If-Modified-Since (fresh, stale, garbage) x Origin x response cache on/off x default extensions on/off x "
-        "limiter off / max 4-6 (429 answers) x request bodies of 0..70000 bytes read / read in part / unread, arriving with the head, after it, "
-        "or split; HEAD/GET pairs of one resource; an unknown Host (409 + close) as last request. EVERY byte received is given to the extracted "
-        "Coq parse_responses (oracle: exactly one well-formed response per request, in order, nothing left over, connection still usable, HEAD "
-        "announces GET's length) and the parsed list is compared with the model's prediction (version, status, reason, content-range, "
-        "accept-ranges, connection, x-tag, reason headers, body; for a content-coded answer the decoded body, and only the framing when a "
-        "range of a coded representation was asked (incl. its 416 when the coded form is shorter than the range start); answers of the CORS / 406 machinery are framed but not predicted). (b) kvarn_async::write::"
-        "response called directly on random version/status/headers/body against print_response, byte for byte. distinct_nontrivial counts "
-        "distinct model outputs")
+RULE = ("(a) histories of 1-12 requests on ONE loopback connection handled by the public kvarn::handle_connection (6 quick / 1000 thorough also "
+        "by a RunConfig::execute server on a loopback port taken from the kernel), each request sent after the previous response was read: "
+        "GET/HEAD/POST/OPTIONS/PUT/DELETE/PATCH/TRACE/CONNECT x existing files (20 B, 3 kB, empty, index.html, in a directory; in some histories "
+        "70 kB, in two 1.3 MB) / missing / '/' / unsafe path / 16 handler-backed paths (static, compressible, 204, 500, counter, echo, body "
+        "readers read_to_bytes(1000) and (5), handlers that set connection: close / upgrade, a false content-length, a BODY on 204 and on 304, "
+        "transfer-encoding: chunked on a whole body, a 2.9 kB head) / 8 STREAMING paths (kvarn's stream_body() on files of 33 B, 0 B, 70 kB, 1.3 MB "
+        "and on a missing file; with_future_and_len of 11 and 0 bytes; with_future WITHOUT a length) x Accept-Encoding (gzip, br, zstd, identity, "
+        "*, q-values) x Range (satisfiable, single byte, open, at / beyond the end, reversed, other unit) x If-Modified-Since (fresh, stale, "
+        "garbage) x Origin x response cache on/off x default extensions on/off x limiter off / max 4-6 (429 answers) / max 1-3 crossed up to the "
+        "drop level x request bodies of 0..70000 bytes (incl. 4095/4096/4097/8192 and such that exactly one or two 4096-byte windows stay "
+        "unread) read / read in part / unread, arriving with the head, after it, or split x request heads of EVERY length class around the "
+        "server's reads (505-519, 1019-1029, 1535-1537, 2045-2051, 3071-3073, 4093-4099, 8191-8193, 512k and 512k+1, random up to 9000; thorough: "
+        "every length 200..4200) x head written at once / byte by byte / in pieces of 2, 3, 7, 64 bytes / with the last 1-4 bytes (the blank "
+        "line) in a segment of their own x HTTP/1.1 and HTTP/1.0 request lines x server socket with the kernel's or a 4 kB send buffer (short "
+        "writes); HEAD/GET pairs of one resource; an unknown Host (409 + close) as last request; a stream of unknown length anywhere (it is the "
+        "last answer: the server closes). EVERY byte received is given to the extracted Coq parse_responses - parse_closing when the history "
+        "meets a stream of unknown length - (oracle: exactly one well-formed response per request, in order, nothing left over, connection "
+        "still usable / closed by the server after the length-less stream whose head says connection: close, HEAD announces GET's length); a "
+        "request that gets no answer within 8 s is run again on a fresh host, and is a VIOLATION with the history as replay when it gets none "
+        "in 3 attempts. The parsed list is compared with the model's prediction (version, status, content-range, accept-ranges, connection, "
+        "x-tag, reason headers, body; error pages by class, reason phrases not at all; for a content-coded answer the decoded body, and only "
+        "the framing when a range of a coded representation was asked; answers of the CORS / 406 machinery are framed but not predicted). "
+        "(b) kvarn_async::write::response called directly on random version/status/headers/body (heads up to 5 kB) against print_response, byte "
+        "for byte up to the reason phrase. distinct_nontrivial counts distinct model outputs")
 ASSUMPTIONS = [
     "theorems are about any application (handle_cache and below) that keeps a state invariant under which its replies are reply_ok; "
-    "for the fixture host this is checked per generated history by the executable c8_hyps, whose soundness is proved "
-    "(checked_history_is_instance; the count is in coverage.histories_that_are_instances_of_the_connection_theorem). reply_ok: what handle_cache returns satisfies the http crate's invariants (status 100..999, lower-case token names, values without "
-    "CR/LF, no transfer-encoding, not HTTP/0.9), a 1xx/204/304 reply has an empty body (bodyless_status_with_body_refuted shows kvarn sends "
-    "a handler's 204 body), the range comes from sanitize_request (start < end); Package extensions leave version, status and "
-    "content-length alone and add no transfer-encoding; Post extensions and streaming futures (with_future: WebSocket, SSE) write nothing "
-    "to the body pipe - responses with a future are outside the model",
+    "for the fixture host this is checked per generated history by the executable c8_hyps / c8_hyps_closing, whose soundness is proved "
+    "(checked_history_is_instance, checked_closing_history_is_instance; the counts are in coverage.histories_that_are_instances_of_the_"
+    "connection_theorem / _closing_theorem). reply_ok: what handle_cache returns satisfies the http crate's invariants (status 100..999, "
+    "lower-case token names, values without CR/LF, not HTTP/0.9), the range comes from sanitize_request (start < end), and for a reply with "
+    "a future (stream_body, with_future): it is not a 1xx/204/304 (protocol switches such as WebSocket are outside), the length it "
+    "announces is the number of bytes its body and its future write (proved for stream_body: stream_body_announces; a handler's own "
+    "future is trusted to keep its word), and a stream of unknown length carries no transfer-encoding / content-length of the handler's "
+    "own (a handler that chunk-encodes by hand, as the reverse proxy does for a chunked upstream on HTTP/1, frames its body itself: outside "
+    "the model). No longer assumed, because send now repairs it: an empty body on 1xx/204/304, no transfer-encoding beside a known length. "
+    "Package extensions leave version, status and content-length alone and add no transfer-encoding; Post extensions write nothing to the "
+    "body pipe",
     "the client of the connection theorem is 'polite': configured Host, not beyond the limiter's drop level (3 x max_requests: the "
-    "connection is closed by design, C12), and it sends exactly the body its request declares, where the declared length is kvarn's "
-    "get_body_length_request: 0 for GET/HEAD/OPTIONS/CONNECT/TRACE whatever content-length says (a GET that carries a body is outside)",
-    "the request reader (kvarn_async::read::request) is C07's; here a request is a parsed head plus body bytes with an early/late split",
+    "connection is closed by design, C12; run against the model in the history-limiter-drop cases), and it sends exactly the body its "
+    "request declares, where the declared length is kvarn's get_body_length_request: 0 for GET/HEAD/OPTIONS/CONNECT/TRACE whatever "
+    "content-length says (a GET or TRACE that carries a body is outside)",
+    "a response that announces no length cannot be followed by another on the same connection: after it the property's 'one response per "
+    "request' holds for the requests up to and including that one (closing_history); the server says connection: close and closes",
+    "the request reader (kvarn_async::read::request) is C07's; here a request is a parsed head plus body bytes with an early/late split; "
+    "that the reader finds the end of every head whatever its length and segmentation is tested (head-length sweeps), not proved here",
+    "kvarn closes a connection on which no request arrives for 5 s: the client of the run never idles that long (final-state waits are "
+    "2.5 s at most)",
     "the executable prediction reuses Model/Cache.v + Model/Fixture.v (C03/C04) for handle_cache; content negotiation is not predicted "
-    "(the harness decodes coded bodies with flate2/brotli/zstd), last-modified / vary / cache-control / content-type are not compared",
+    "(the harness decodes coded bodies with flate2/brotli/zstd), last-modified / vary / cache-control / content-type are not compared; "
+    "the order of headers of different names after HeaderMap::remove (swap-remove) is not modelled, no statement depends on it",
 ]
-TRUSTED = ["modelled: async/src/lib.rs write::response; src/lib.rs SendKind::send (range, ensure_length, ensure_version, resolve_package, body "
-           "rule), handle_connection request loop (409, limiter Send/Drop, sequential HTTP/1 handling, drain); src/application.rs "
-           "ResponsePipe::send_response (connection header), ensure_length/ensure_version, Http1Body::{read_to_bytes accounting, drain}; "
-           "utils set_content_length, method_has_response_body, get_body_length_request, hardcoded_error_body; http::StatusCode::canonical_reason table",
+TRUSTED = ["modelled: async/src/lib.rs write::response; src/lib.rs SendKind::send (bodyless statuses, range, ensure_length, ensure_version, "
+           "resolve_package, body rule, the future's writes and the HEAD rule for them), handle_connection request loop (409, limiter Send/Drop, "
+           "sequential HTTP/1 handling, drain, close after a stream of unknown length); src/application.rs ResponsePipe::send_response "
+           "(connection header incl. close for a head without a length), ensure_length (removes transfer-encoding) / ensure_version, "
+           "Http1Body::{read_to_bytes accounting, drain}; src/extensions.rs stream_body (range clamp, announced length, bytes sent); utils "
+           "set_content_length, method_has_response_body, get_body_length_request, hardcoded_error_body; http::StatusCode::canonical_reason table",
            "the second stage of the run (driver/props/c08.py) hands the harness's raw bytes to the extracted parser; the harness's own "
-           "lenient framing only paces the requests"]
+           "lenient framing only paces the requests",
+           "the fixture futures of harness/src/c08.rs (with_future / with_future_and_len writing fixed chunks) behave as the model's chunk lists"]
 EXHAUSTIVE = False
 IMPL_SHARDS = 16
 PER_SHARD = 8
@@ -658,16 +683,20 @@ def spec_ok(c, i, s):
     n, must_open, closing = sx[1][0][1], sx[1][1][1], sx[1][3][1]
     c.meta["instance"] = sx[1][2][1]
     c.meta["closing_instance"] = closing
+    summary = "; ".join(_req_text(r) for r in c.x[1][1][1])
     if v["confused"] or v["resp"] is None or len(v["resp"]) != n or v["answered"] != n:
         c.meta["why"] = ("the strict client does not find exactly one well-formed response per request (%d requests sent, %d answered%s%s)"
                          % (v["sent"], v["answered"], ", then the client could not go on" if v["confused"] else "",
-                            "; the client waited in vain in each of %d attempts" % v["attempts"] if v["slow"] else ""))
+                            "; the client waited in vain in each of %d attempts" % v["attempts"] if v["slow"] else "")) + " -- requests: " + summary
         return False
     if must_open and v["final"] != 0:
-        c.meta["why"] = "the server closed the connection"
+        c.meta["why"] = "the server closed the connection -- requests: " + summary
         return False
     if closing and v["final"] != 1:
-        c.meta["why"] = "a response without a length was written and the server did not close the connection"
+        c.meta["why"] = "a response without a length was written and the server did not close the connection -- requests: " + summary
+        return False
+    if closing and n and _hdr(v["resp"][n - 1][1][3][1], b"content-length") is None and _hdr(v["resp"][n - 1][1][3][1], b"connection") != b"close":
+        c.meta["why"] = "a response without a length does not say connection: close -- requests: " + summary
         return False
     reqs = c.x[1][1][1]
     for k in range(n - 1):
@@ -682,6 +711,16 @@ def spec_ok(c, i, s):
                     c.meta["why"] = "HEAD and GET of the same resource announce different lengths"
                     return False
     return True
+
+
+def _req_text(r):
+    m, t, hs, body, early, flags = [y[1] for y in r[1]]
+    out = "%s %s" % (m.decode("latin1"), t.decode("latin1"))
+    hl = head_len(m, t, [(h[1][0][1], h[1][1][1]) for h in hs])
+    hh = ", ".join("%s: %s" % (h[1][0][1].decode("latin1"), (h[1][1][1][:24] + b"..." if len(h[1][1][1]) > 24 else h[1][1][1]).decode("latin1")) for h in hs)
+    out += " [%s]" % hh if hh else ""
+    out += " (head %d B" % hl + (", body %d B of which %d with the head" % (len(body), min(early, len(body))) if body else "") + (", flags %#x" % flags if flags else "") + ")"
+    return out
 
 
 def harness_trouble(c, i):
@@ -742,10 +781,14 @@ def main(tier, seed, replay):
         kv.run_cases = orig
 
 
-LEVEL_TEXT = ("proved for all response sequences / all histories of the connection model: strict-client round trip, content-length = bytes "
-              "written, HEAD = GET's head without body, one response per request in order, fate of an unread request body; the model is "
-              "tied to kvarn by the differential run on every check")
-LEVEL_NOTE = ("two defects repaired on the way (unread late request body desynchronised the connection; 429/409 answers to HEAD carried a "
-              "body); the pre-repair behaviour is kept as refutation witnesses replayed on the real code")
+LEVEL_TEXT = ("proved for all response sequences / all histories of the connection model, streamed replies included: strict-client round "
+              "trip, content-length = bytes written (body + what the reply's future streams), HEAD = GET's head without body however the body "
+              "is produced, one response per request in order on a kept connection, a stream of unknown length is close-delimited and the "
+              "last thing on its connection (closing_history), stream_body announces what it sends, fate of an unread request body; the "
+              "model is tied to kvarn by the differential run on every check (that every request head is recognised whatever its length "
+              "and segmentation is swept, not proved: C07's reader)")
+LEVEL_NOTE = ("seven defects repaired on the way (unread late request body; 429/409 answers to HEAD carried a body; a future's body written "
+              "for HEAD; stream_body announcing more than the file holds; a stream of unknown length on a kept keep-alive connection; a body "
+              "after 204/304; transfer-encoding beside content-length); the pre-repair behaviour is kept as refutation witnesses")
 TECHNIQUE = ("Coq proof (printer/strict-parser round trip for all response sequences; send-path and connection-loop invariants) + "
              "differential correspondence model vs. implementation, every received byte parsed by the extracted Coq parser")
